@@ -155,6 +155,8 @@ func execNsec(f []string) vlib.Res {
 			curRRs = append(curRRs, toNSEC(r))
 		}
 		return vlib.Res{Impl: "n=" + itoa(len(curSet))}
+	case "auth":
+		return execAuthNsec(f)
 	case "truth":
 		c, _ := curZone.answerClass(parseName(f[2]), uint16(atoi(f[3])))
 		return vlib.Res{Impl: c}
